@@ -872,7 +872,20 @@ class CSemantics:
 
             # Booleans are integer type:
             result_typ = self.int_type
-        elif op in ["<<", ">>", "|", "&", "^"]:  # Bit shifting operators
+        elif op in ["<<", ">>"]:  # Bit shifting operators
+            self.ensure_integer(lhs)
+            self.ensure_integer(rhs)
+
+            # Each operand is promoted on its own, the result has the
+            # type of the promoted left operand (C11 6.5.7). The shift
+            # amount is brought to that type for the ir operation, which
+            # preserves every valid amount (0 .. width - 1).
+            lhs = self.promote(lhs)
+            rhs = self.promote(rhs)
+
+            result_typ = lhs.typ
+            rhs = self.coerce(rhs, result_typ)
+        elif op in ["|", "&", "^"]:  # Bitwise operators
             self.ensure_integer(lhs)
             self.ensure_integer(rhs)
 
